@@ -286,6 +286,24 @@ class Effects:
         return '...'
 
     @staticmethod
+    def _canon(m, expr, callees):
+        """Text of a call/store target with a local receiver replaced by the class
+        of the resolved callee, so that descriptions (and the finding keys built
+        from them) do not depend on the names of local variables."""
+        root = expr
+        while isinstance(root, (ast.Attribute, ast.Subscript, ast.Call)):
+            root = root.value if not isinstance(root, ast.Call) else root.func
+        t = text(expr)
+        if not isinstance(root, ast.Name) or root.id in ('self', 'cls', 'super') or not isinstance(expr, ast.Attribute):
+            return t
+        if root.id in m.toplevel_names():
+            return t
+        owners = sorted({cq.split('.')[0] for _, cq in callees if '.' in cq})
+        if not owners:
+            return t
+        return '<' + '|'.join(owners) + '>' + t[len(root.id):]
+
+    @staticmethod
     def is_dom_raise(st):
         if not isinstance(st, ast.Raise) or st.exc is None:
             return False
@@ -311,7 +329,7 @@ class Effects:
                 else:
                     callees = self.resolve_call(rel, q, n)
                     if callees:
-                        sites.append((n, text(n.func) + '(...)', callees))
+                        sites.append((n, self._canon(m, n.func, callees) + '(...)', callees))
             elif isinstance(n, (ast.Assign, ast.AugAssign, ast.Delete)):
                 tgts = n.targets if not isinstance(n, ast.AugAssign) else [n.target]
                 for t in tgts:
@@ -321,7 +339,7 @@ class Effects:
                             if isinstance(x, ast.Subscript):
                                 sites.append((x, ('del ' if isinstance(n, ast.Delete) else '') + 'self[...]' + ('' if isinstance(n, ast.Delete) else ' = ...'), callees))
                             else:
-                                sites.append((x, f'{text(x)} = <{self._rhs_kind(fn, n)}> (setter)', callees))
+                                sites.append((x, f'{self._canon(m, x, callees)} = <{self._rhs_kind(fn, n)}> (setter)', callees))
         # drop sites protected by a try that catches DOM exceptions
         out = []
         for node, desc, callees in sites:
